@@ -118,12 +118,12 @@ theorem C04_keep_partial (db : Db) (fuel : Nat) (r : Request) (hkeep : r.keep = 
   | succ k =>
     rw [setup_succ_true] at h
     have ha0 := init_alreadyOK db e
-    cases hres : resolve (r.cfg db).db (r.cfg db).keep (St.init e).already r.name r.version none 0 r.vro.length r.vro with
+    cases hres : resolve (r.cfg db).db (r.cfg db).path (r.cfg db).keep (St.init e).already r.name r.version none 0 r.vro.length r.vro with
     | none => rw [hres] at h; cases h
     | error => rw [hres] at h; cases h
     | found d reason =>
       rw [hres] at h
-      obtain ⟨hc, hname⟩ := resolve_spec _ _ _ ha0 _ _ _ _ _ _ _ _ hres
+      obtain ⟨hc, hname⟩ := resolve_spec _ _ _ _ ha0 _ _ _ _ _ _ _ _ hres
       -- the registered state mirrors every record
       have hreg : register (r.cfg db) 0 d reason (St.init e) =
           ⟨e, [], [], aset (alreadyOfEnv db e) d.name (d, reason)⟩ := by simp [register, St.init, Request.cfg]
@@ -152,12 +152,12 @@ theorem C04_keep_partial (db : Db) (fuel : Nat) (r : Request) (hkeep : r.keep = 
 
 def nA : Name := [97]
 def nC : Name := [99]
-def v1 : Ver := [49]
-def v3 : Ver := [51]
+def v1 : Ver := ([49], 0)
+def v3 : Ver := ([51], 0)
 
 /-- `a 1 → c`, `a 3` has no dependencies -/
 def dbKeep : Db :=
-  { decls := [⟨nA, v1, [1], [(.always, .dep nC false false none none [])]⟩, ⟨nA, v3, [2], []⟩, ⟨nC, v1, [3], []⟩],
+  { decls := [⟨nA, v1, [1], [(.always, .dep nC false false none none [] false)]⟩, ⟨nA, v3, [2], []⟩, ⟨nC, v1, [3], []⟩],
     tags := [(tagCurrent, nA, v1), (tagCurrent, nC, v1)] }
 
 def envOf : Res → Option Setup.Env
@@ -166,8 +166,8 @@ def envOf : Res → Option Setup.Env
 
 /-- after `setup a` (→ `a 1`, `c 1`), `setup --keep a 3` ends with `c` not set up -/
 theorem C04_keep_drop_witness :
-    ∃ e1 e2, envOf (runSetup dbKeep 10 ⟨nA, none, false, none, false, []⟩ Setup.Env.empty) = some e1 ∧
-      envOf (runSetup dbKeep 10 ⟨nA, some (.explicit v3), true, none, false, []⟩ e1) = some e2 ∧
+    ∃ e1 e2, envOf (runSetup dbKeep 10 ⟨nA, none, false, none, false, [], [0]⟩ Setup.Env.empty) = some e1 ∧
+      envOf (runSetup dbKeep 10 ⟨nA, some (.explicit v3.1), true, none, false, [], [0]⟩ e1) = some e2 ∧
       e1.rec? nC = some v1 ∧ e2.rec? nC = none := by
   refine ⟨⟨[(nC, v1), (nA, v1)], [(nC, .own (nC, v1) []), (nA, .own (nA, v1) [])], [], []⟩,
           ⟨[(nA, v3)], [(nA, .own (nA, v3) [])], [], []⟩, ?_, ?_, ?_, ?_⟩ <;> decide +kernel
@@ -177,12 +177,12 @@ theorem C04_keep_drop_witness :
 def nP : Name := [112]
 def nX : Name := [120]
 def nZ : Name := [122]
-def v2 : Ver := [50]
+def v2 : Ver := ([50], 0)
 
 /-- `p 1 → z`, `p 2` has no dependencies, the bystander `x 1 → z` -/
 def dbNarrow : Db :=
-  { decls := [⟨nP, v1, [1], [(.always, .dep nZ false false none none [])]⟩, ⟨nP, v2, [2], []⟩,
-              ⟨nX, v1, [3], [(.always, .dep nZ false false none none [])]⟩, ⟨nZ, v1, [4], []⟩],
+  { decls := [⟨nP, v1, [1], [(.always, .dep nZ false false none none [] false)]⟩, ⟨nP, v2, [2], []⟩,
+              ⟨nX, v1, [3], [(.always, .dep nZ false false none none [] false)]⟩, ⟨nZ, v1, [4], []⟩],
     tags := [(tagCurrent, nP, v1), (tagCurrent, nX, v1), (tagCurrent, nZ, v1)] }
 
 /-- Under the reading "reachable through the tables of the newly selected versions only", `z` is not reachable from
@@ -190,9 +190,9 @@ the request `setup p 2` (`p 2` has no dependencies) — yet it loses its record,
 replacing `p 1` unwinds `p 1`'s dependencies.  `C04_frame` is therefore stated for reachability through the tables of
 the selected *and the replaced* versions. -/
 theorem C04_narrow_frame_fails :
-    ∃ e1 e2 e3, envOf (runSetup dbNarrow 10 ⟨nX, none, false, none, false, []⟩ Setup.Env.empty) = some e1 ∧
-      envOf (runSetup dbNarrow 10 ⟨nP, none, false, none, false, []⟩ e1) = some e2 ∧
-      envOf (runSetup dbNarrow 10 ⟨nP, some (.explicit v2), false, none, false, []⟩ e2) = some e3 ∧
+    ∃ e1 e2 e3, envOf (runSetup dbNarrow 10 ⟨nX, none, false, none, false, [], [0]⟩ Setup.Env.empty) = some e1 ∧
+      envOf (runSetup dbNarrow 10 ⟨nP, none, false, none, false, [], [0]⟩ e1) = some e2 ∧
+      envOf (runSetup dbNarrow 10 ⟨nP, some (.explicit v2.1), false, none, false, [], [0]⟩ e2) = some e3 ∧
       e2.rec? nZ = some v1 ∧ e3.rec? nZ = none ∧ e3.rec? nX = some v1 := by
   refine ⟨⟨[(nZ, v1), (nX, v1)], [(nZ, .own (nZ, v1) []), (nX, .own (nX, v1) [])], [], []⟩,
           ⟨[(nP, v1), (nZ, v1), (nX, v1)], [(nP, .own (nP, v1) []), (nZ, .own (nZ, v1) []), (nX, .own (nX, v1) [])], [], []⟩,
